@@ -20,6 +20,12 @@
                                  the individual steps of both wakers
      c02_unparked_threads_enabled, c02_timed_wait_released_by_clock, c02_clock_can_advance, c02_finished_threads_idle
                                  nothing but futex_wait blocks a thread; a timed sleeper is released by the clock
+     c02_timed_pop_tail_never_waits, c02_timed_pop_wait_then_try_pop_n, c02_timed_pop_passes_num
+                                 the timed exclusive pop: once its single timed wait is over (reached or timed out) the call is
+                                 the index load of try_pop_n<false> and runs to its return through non-waiting steps only -
+                                 it can never sleep without a deadline; the tail of the function is regenerated from the
+                                 source (the statement after the timed wait must be `return try_pop_n<false,...>(callback, num);`
+                                 and the last one of the body, else the translator stops)
      c02_wake_batch_tso, c02_wake_single_tso, c02_wake_batch_without_fence_refuted
                                  the same waker / waiter race on an explicit store-buffer (TSO) machine, every execution, with
                                  the fences regenerated from the source
@@ -32,7 +38,7 @@
    versions compared through 16-bit words, as the code does) admits the ABA "waiter pre-empted for exactly 2^15 rounds". *)
 From Coq Require Import ZArith List Bool.
 Require Import Verif.Gen.Gen_bounded_queue Verif.Conc.Machine Verif.BQ.BQModel Verif.BQ.BQProofs.
-Require Import Verif.BQ.BQInvDefs Verif.BQ.BQInvStep Verif.BQ.BQInvMain Verif.BQ.BQInvThm Verif.BQ.BQWake Verif.BQ.BQFifo Verif.BQ.BQTry Verif.BQ.BQDead.
+Require Import Verif.BQ.BQInvDefs Verif.BQ.BQInvStep Verif.BQ.BQInvMain Verif.BQ.BQInvThm Verif.BQ.BQWake Verif.BQ.BQFifo Verif.BQ.BQTry Verif.BQ.BQDead Verif.BQ.BQTimed.
 Import ListNotations.
 Local Open Scope Z_scope.
 
@@ -85,6 +91,23 @@ Print Assumptions c02_timed_wait_released_by_clock.
 Theorem c02_clock_can_advance : forall s, step s (length (threads s)) <> None.
 Proof. exact bq_clock_enabled. Qed.
 Print Assumptions c02_clock_can_advance.
+
+(* until_tail p: p is none of Idle / TkStore / WLoad / WCas / WFutex / WParked / WReload / WSleep / WSpin;
+   tail_or_done th th': same call and until_tail (tpc th'), or the call has returned *)
+Theorem c02_timed_pop_tail_never_waits : forall s t s' th o th', step s t = Some s' -> nth_error (threads s) t = Some th ->
+  nth_error (prog th) (opi th) = Some o -> is_timed o = true -> until_tail (tpc th) ->
+  nth_error (threads s') t = Some th' ->
+  (opi th' = opi th /\ until_tail (tpc th')) \/ (opi th' = S (opi th) /\ tpc th' = Idle).
+Proof. exact bq_timed_pop_tail. Qed.
+Print Assumptions c02_timed_pop_tail_never_waits.
+
+Theorem c02_timed_pop_wait_then_try_pop_n : forall o l j, is_timed o = true -> after_wait o l j = TnIdx.
+Proof. exact bq_timed_wait_then_tail. Qed.
+Print Assumptions c02_timed_pop_wait_then_try_pop_n.
+
+Theorem c02_timed_pop_passes_num : forall n, until_try_num n = n.
+Proof. exact bq_until_try_num. Qed.
+Print Assumptions c02_timed_pop_passes_num.
 
 Theorem c02_wake_tests_match_waiter_bit : forall v w,
   block_no_waiter (word16 v w) = negb w /\ xchg_no_waiter (word16 v w) = negb w /\ wakeup_no_waiter (word16 v w) = negb w /\
